@@ -51,7 +51,8 @@ static void fds_cases(vt::Rng& r, bool quick, int shard, int nshards) {
           mask[k] = style == 0 ? (char)0xFF : style == 1 ? 0 : style == 2 ? (char)(r.chance(50) ? 1 + r.below(255) : 0) : (char)((k / 3) % 2 ? 0x80 : 0);
         string text = format_data_string(d, hasmask ? &mask : nullptr, flags);
         if (i % 2) text = format_data_string(d.data(), d.size(), hasmask ? mask.data() : nullptr, flags);
-        string backmask;
+        // the mask string handed over is REUSED by callers: whatever it held before (here: leftovers) is replaced
+        string backmask = (i % 3) ? string("\xff\x01stale-mask-bytes") : string();
         string back = parse_data_string(text, &backmask);
         c.add({js(d), js(mask), js(text), js(back), js(backmask)});
         if (c.n >= 300) {
@@ -124,7 +125,7 @@ static void pds_cases(vt::Rng& r, bool quick, int shard, int nshards) {
     // the text is handed over in an exact-size heap buffer so that a read past its end is seen by ASan
     string* heap = new string(texts[i]);
     heap->shrink_to_fit();
-    string mask, data;
+    string mask = (i % 3 == 1) ? string("\xff\x00\xffold", 6) : string(), data;
     int out = 0;
     try {
       data = parse_data_string(*heap, &mask);
